@@ -89,6 +89,15 @@ func runSolo(e *env, rng *common.RNG) {
 		s.newLocal()
 	}
 	s.reporter = &errCollector{}
+	e.onStuck = func() bool {
+		uids := s.w.BlockedUIDs()
+		if len(uids) == 0 {
+			return false
+		}
+		s.log.Add(&rpcbench.Event{Kind: rpcbench.EvNote, Who: "S", Note: "script releases blocked implementations (everything else is parked)"})
+		s.w.ReleaseAll()
+		return true
+	}
 	s.conn = rpc.NewConn(s.ct, &rpc.Options{BootstrapClient: bootClient, ErrorReporter: s.reporter})
 
 	// the first steps give both sides something to talk to
@@ -557,9 +566,6 @@ func (s *solo) stepPeerRelease() bool {
 	}
 	s.step("peer Release cap%d n=%d of %d", ce.id, n, ce.refs)
 	s.sendPeerRelease(ce, n)
-	if ce.refs == 0 {
-		ce.gen++
-	}
 	return true
 }
 
